@@ -16,6 +16,7 @@ Oracle is three-valued: only what the property sentence states is demanded, see
 `ctx.assumptions` for what is left unconstrained.
 """
 import copy
+import gc
 import hashlib
 import itertools
 import os
@@ -455,7 +456,7 @@ def trailer_nodes(dc, optional):
     return nodes
 
 
-def valid_instances(dc, mi, quick_subset):
+def valid_instances(dc, mi, quick_subset, thorough=True):
     """yield (class, tree) - every one is a message built according to the dictionary."""
     name, mt, members = dc.msgs[mi]
     mn = build(members, False, "min")
@@ -485,19 +486,21 @@ def valid_instances(dc, mi, quick_subset):
         if m["en"]:
             base = build(members, False, "min", target=p)
             for e in m["en"][1:]:
-                yield "enumerator|" + lv, set_value(base, p, e)
+                yield "enumerator|" + lv, set_value(base, p, e), base
             if m["typ"].upper() in MULTI and len(m["en"]) >= 2:
-                yield "multiple_value_string_two_enumerators", set_value(base, p, m["en"][0] + " " + m["en"][1])
+                yield "multiple_value_string_two_enumerators", set_value(base, p, m["en"][0] + " " + m["en"][1]), base
         else:
             t = m["typ"].upper()
             for v in CANON.get(t, [])[1:]:
                 if base is None:
                     base = build(members, False, "min", target=p)
-                yield "typed_value:" + t + "|" + lv, set_value(base, p, v)
+                yield "typed_value:" + t + "|" + lv, set_value(base, p, v), base
         if m["tag"] in SPECIAL_VALID and not m["en"]:
             if base is None:
                 base = build(members, False, "min", target=p)
-            yield "special_value_tag" + m["tag"], set_value(base, p, SPECIAL_VALID[m["tag"]])
+            yield "special_value_tag" + m["tag"], set_value(base, p, SPECIAL_VALID[m["tag"]]), base
+    if not thorough:
+        return
     # maximal minus each optional member (never a group delimiter)
     for addr, nodes, mem, level in containers(mx, members):
         idx = {m["tag"]: (j, m) for j, m in enumerate(mem)}
@@ -708,8 +711,9 @@ def _work(item):
     thorough_values = thorough or did in ("SIMPLE", "SYN") or part != "faults_max"
     dc = get_dc(did, REPO)
     name, mt, members = dc.msgs[mi]
-    seen = set()
-    res = {"n": 0, "calls": 0, "nontrivial": 0, "viol": [], "vsigs": {}, "outcomes": set(), "classes": {}}
+    seen = {}
+    res = {"n": 0, "calls": 0, "nontrivial": 0, "viol": [], "vsigs": {}, "outcomes": set(), "classes": {},
+           "base_invalid": 0}
 
     def record(j):
         if j is None:
@@ -721,20 +725,26 @@ def _work(item):
             res["vsigs"][s] = 1
             res["viol"].append(j)
 
-    def run_one(tree):
+    def run_one(tree, again=False):
         h = _hash(tree)
         if h in seen:
-            return None
-        seen.add(h)
+            return seen[h] if again else None
         res["calls"] += 1
         if has_group(tree):
             res["nontrivial"] += 1
         v = verdict(dc.schema, mt, tree)
+        seen[h] = v
         res["outcomes"].add(v)
         return v
 
     if part == "valid":
-        for cls, tree in valid_instances(dc, mi, not thorough and did == "TT"):
+        for tup in valid_instances(dc, mi, not thorough and did == "TT", thorough or did in ("SIMPLE", "SYN")):
+            cls, tree = tup[0], tup[1]
+            if len(tup) > 2 and run_one(tup[2], again=True) != "True":
+                # a value variant of an instance that is itself not accepted: that instance is reported
+                # (minimal / minimal_plus_optional_*), the variant would only repeat it
+                res["base_invalid"] += 1
+                continue
             v = run_one(tree)
             if v is None:
                 continue
@@ -760,6 +770,13 @@ def _work(item):
         else:
             # every group of the message with two small items each: faults in first and in second items
             base, bname, second = build(members, False, "groups", two=True), "all_groups_two_items", True
+        nbase = 0
+        if base is not None:
+            nbase = 0 if _hash(base) in seen else 1  # the base itself is counted by the valid part
+        if base is not None and run_one(base, again=True) != "True":
+            # faults of an instance that is itself rejected prove nothing (the valid part reports it)
+            res["base_invalid"] += 1
+            base = None
         if base is not None:
             for cls, lv, tree, note in faults(dc, mi, base, thorough_values, only_in_groups=second):
                 v = run_one(tree)
@@ -768,7 +785,7 @@ def _work(item):
                 k = "fault:" + cls.split(":")[0] + "|" + lv
                 res["classes"][k] = res["classes"].get(k, 0) + 1
                 record(judge_fault(did, name, mt, bname, cls, lv, note, tree, v))
-    res["n"] = len(seen)
+    res["n"] = len(seen) - (nbase if part.startswith("faults") else 0)
     return res
 
 
@@ -873,10 +890,10 @@ def real_permutations(dc, quick):
     first = [names.index(c) for c in order]
     perms.append(first)
     perms.append(first[::-1])
-    step_r = 8 if quick else 1
+    step_r = 13 if quick else 1
     for k in range(1, n, step_r):
         perms.append(ident[k:] + ident[:k])
-    step_t = 4 if quick else 1
+    step_t = 6 if quick else 1
     for k in range(0, n - 1, step_t):
         p = list(ident)
         p[k], p[k + 1] = p[k + 1], p[k]
@@ -920,13 +937,15 @@ def run(ctx):
     # big first for load balance; merged simplest-first below
     sched = sorted(items, key=lambda x: (-x[0], x[1], x[2], x[3]))
     work = [(DICT_IDS[di], mi, part, thorough) for (sz, di, mi, part) in sched]
+    gc.collect()
+    gc.freeze()  # keep the inherited dictionaries out of the workers' collector (less copy-on-write)
     results = ctx.pmap(_work, work, chunk=1)
     rank = {"valid": 0, "faults_min": 1, "faults_max": 2, "faults_two": 3, "header": 4}
     merged = sorted(zip(sched, results), key=lambda x: (x[0][3] == "header", x[0][0], x[0][1], x[0][2], rank[x[0][3]]))
     classes = {}
     for (sz, di, mi, part), r in merged:
         ctx.count(states=r["n"], transitions=r["calls"], traces=r["calls"], evaluations=r["calls"],
-                  nontrivial=r["nontrivial"])
+                  nontrivial=r["nontrivial"], not_judged_because_base_instance_rejected=r["base_invalid"])
         ctx.outcomes.update(r["outcomes"])
         for k, n in r["classes"].items():
             classes[k] = classes.get(k, 0) + n
